@@ -125,7 +125,14 @@ def analyze(ctx, want):
         ob("C02.a", "%s:has-return-path" % bname, bool(rp), "%d return paths" % len(rp), fn.loc())
         for p in rp:
             guard = [(c, o) for c, o in p.conds if c[0] == "app" and c[1] == "is_empty"]
-            shortcut = bool(guard) and guard[-1][1] is True
+            # which operand a passed is_empty() test speaks about: the receiver (x0 = ε) or the argument (x1 = ε)
+            empt = set()
+            for c_, o_ in guard:
+                if o_ is True:
+                    a_ = S.vstr(c_[2][0]).lstrip("&*") if len(c_) > 2 and c_[2] else "?"
+                    empt.add("self" if a_ == "self" else ("nfa" if a_ == "nfa" else "?"))
+            shortcut = "self" in empt or "?" in empt
+            shortcut_op = (not shortcut) and "nfa" in empt
             edges = [(canon_state(e[2]), canon_state(e[3])) for e in p.events if e[0] == "eps"]
             ws = {field_path(w[1]): w[2] for w in heap_writes(p) if w[0] == ("sym", "self")}
             start = canon_state(ws["start_state"]) if "start_state" in ws else "S0"
@@ -139,7 +146,7 @@ def analyze(ctx, want):
                 end = {"S1raw": "S1", "E1raw": "E1"}.get(end, end)
                 took_states = "states" in ws and S.vstr(ws["states"]) == "nfa.states"
                 ob("C02.a", "%s:shortcut-takes-operand-states" % bname, took_states, "shortcut writes states := %s" % (S.vstr(ws["states"]) if "states" in ws else None), fn.loc())
-            elif uses_operand:
+            elif uses_operand and not shortcut_op:
                 ok_shift = len(shifted) == 1 and S.vstr(shifted[0][3]) == "Vec::len(&self.states)" and len(appended) == 1
                 ob("C02.b", "%s:operand-shifted-by-own-state-count-then-appended" % bname, ok_shift,
                    "shift_ids(%s), %d append" % ([S.vstr(e[3]) for e in shifted], len(appended)), fn.loc())
@@ -158,14 +165,19 @@ def analyze(ctx, want):
                 # under the guard the receiver has no edges: x0 = ε and S0 == E0
                 n.add_eps("S0", "E0")
                 n.add_eps("E0", "S0")
+            if shortcut_op:
+                # under the guard the argument has no edges: x1 = ε (X·ε = X holds, X|ε = X does not)
+                exp = A.subst(expected, "x1", ("eps",))
+                n.add_eps("S1", "E1")
+                n.add_eps("E1", "S1")
             ok, wit = A.equivalent(n, A.regex_nfa(exp), alphabet=["x0", "x1"] if uses_operand else ["x0"])
-            key = "%s:%s" % (bname, "identity-shortcut" if shortcut else "general")
+            key = "%s:%s" % (bname, "identity-shortcut" if shortcut else ("operand-identity-shortcut" if shortcut_op else "general"))
             detail = "start=%s end=%s ε-edges=%s accepts %s %s" % (start, end, edges, "exactly" if ok else "NOT", A.show(exp))
             if not ok:
                 detail += " (differs on the word %s)" % (" ".join(wit) if wit else "ε")
-            rule = "C01.g" if shortcut else "C02.a"
+            rule = "C01.g" if (shortcut or shortcut_op) else "C02.a"
             ob(rule, key, ok, detail, fn.loc())
-            if shortcut:
+            if shortcut or shortcut_op:
                 ob("C02.g", key, ok, detail, fn.loc())
             sample("C02.a", {"builder": bname, "path": "shortcut" if shortcut else "general", "start": start, "end": end, "eps_edges": edges, "language": A.show(exp), "equivalent": ok})
             # fragment invariants preserved: no edge into the final start, none out of the final end
